@@ -270,10 +270,11 @@ Qed.
 Print Assumptions C13_oracle_outv_eqb.
 
 (* ... and a case file that evaluates to no failure code means: for every cross-compared call, ALL recorded
-   outcomes -- every interpreter (hash seed), every presentation (voter order, insertion order, scale, combined),
+   outcomes -- every interpreter (hash seed), every presentation (voter order, insertion order, scale, combined,
+   evaluation after other elections on the same objects),
    every in-process repetition -- are equal in that sense *)
 Theorem C13_oracle_sound : forall c k, check c = [] -> In k (c_calls c) -> k_cross k = true ->
-  (forall j kd, nth_error (c_pk c) (S j) = Some kd -> (1 <= kd <= 4)%nat) ->
+  (forall j kd, nth_error (c_pk c) (S j) = Some kd -> (1 <= kd <= 5)%nat) ->
   forall a b, In a (all_outs k) -> In b (all_outs k) -> outv_eq a b.
 Proof. exact check_sound. Qed.
 Print Assumptions C13_oracle_sound.
